@@ -751,6 +751,21 @@ fn packet_checks(ctx: &mut Ctx, p: &Packet, wire: Option<(&[u8], bool, &[u8])>, 
             }
         }
     }
+    // the packet header the object itself carries: for objects built or modified through the API (the
+    // library maintains that header) and for canonically encoded input, a fixed length in it is the length
+    // of the body that is written
+    if wire.map(|w| w.1).unwrap_or(true) {
+        if let pgp::types::PacketLength::Fixed(n) = p.packet_header().packet_length() {
+            let mut body = vec![];
+            if body_of(p, &mut body).is_ok() && n as usize != body.len() {
+                ctx.violation(
+                    format!("C05/stored-header-length-stale/{label}"),
+                    format!("packet_header() of the object announces a body of {n} octets, {} are written", body.len()),
+                    replay.clone(),
+                );
+            }
+        }
+    }
     // (a)
     let again: Vec<_> = match ctx.guarded("C05/reparse", || replay.clone(), || PacketParser::new(&out[..]).collect::<Vec<_>>()) {
         Some(a) => a,
@@ -915,7 +930,7 @@ pub fn run(ctx: &mut Ctx) {
 
     // ---------------------------------------------------------------------------------
     // Family R: reference-encoded packets of every type
-    let per_type = ctx.qt(1400u64, 20000u64);
+    let per_type = ctx.qt(1400u64, 400000u64);
     let forms_canon = [LenForm::NewMin];
     for kind in 0..6u64 {
         for i in 0..per_type {
